@@ -341,6 +341,23 @@ theorem C18.pyfftw_planning_old_guards_destroy_data (realIn hc fresh destroys in
   cases realIn <;> cases hc <;> cases fresh <;> cases destroys <;> cases inPlace <;>
     simp [dataSurvivesPlanningOld, mustCopy, arrayInCopied]
 
+/-- Boolean fact about the plan-reuse guard of `pyfftw_call` (no arithmetic content): the plan
+that is executed always has the in-place-ness of the call, whatever plan the operator has
+cached (out-of-place call after an in-place one and vice versa, after `init_fftw_plan`, …).
+That FFTW requires this is an assumption; call histories on one operator instance are
+compared with `numpy.fft` on every run. -/
+theorem C18.pyfftw_executed_plan_matches_call (given : Option Bool) (callInPlace : Bool) :
+    executedPlanInPlace given callInPlace = callInPlace := by
+  cases given with
+  | none => rfl
+  | some p => cases p <;> cases callInPlace <;> rfl
+
+/-- Sensitivity: executing every given plan (the code before the repair) runs a plan with the
+wrong in-place-ness exactly when the cached plan's differs from the call's. -/
+theorem C18.pyfftw_executed_plan_old_mismatch (p callInPlace : Bool) :
+    executedPlanInPlaceOld (some p) callInPlace ≠ callInPlace ↔ p ≠ callInPlace := by
+  cases p <;> cases callInPlace <;> simp [executedPlanInPlaceOld]
+
 /-! ## Phases of the continuous transform (`dft_preprocess_data`, `dft_postprocess_data`) -/
 
 open OdlModel.C18
